@@ -13,10 +13,14 @@
      setDelayedValue(key, X&&), getFuture, isRecognized, isCompleted, finishedWithValue :
                                       invoke ; lock [whole body] ; unlock + ret
      fulfillAllPromises(const X&)   : invoke ; lock ; one CALL per pending promise, int map first, then
-                                      string map, each in key order ; (after the last) clear() ; unlock + ret
-                                      - a throwing copy ends the method at once: the promises satisfied so
-                                      far are satisfied and filed in the used maps, but the pending maps are
-                                      NOT cleared (clear() comes after the loops): they keep moved-from promises.
+                                      string map, each in key order ; unlock + ret.  Each iteration: set_value,
+                                      move the promise to the used map, erase the entry from the pending map
+                                      (repair b8719b7) - i.e. the body of setDelayedValue for that key.
+                                      - a throwing copy ends the method at once: the keys served so far are
+                                      completed, the others still pending, every promise intact.
+                                      [unfixed = true: the header before b8719b7 - entries are not erased in the
+                                      loop, both pending maps are clear()ed after the loops: a throwing copy
+                                      leaves moved-from promises in the pending maps.]
    A method body runs, in real time, inside the step that ends at its next scheduling point; its effect
    on the promises is visible to a client polling a future it holds (no mutex involved).
 
@@ -220,20 +224,20 @@ Inductive pc :=
 | Idle
 | P_lock (o : op)                 (* waiting for promiseLock *)
 | P_call (o : op)                 (* setDelayedValue(const X&), key pending: inside set_value, about to copy *)
-| P_ful (v : Z) (k : bool) (key : Z) (q : nat) (r : amap) (done : nat) (c0 : cont)
+| P_ful (v : Z) (k : bool) (key : Z) (q : nat) (r : amap) (c0 : cont)
                                   (* fulfillAllPromises, loop over map k, about to copy for entry (key,q),
-                                     r still to come; ghost: done = promises satisfied so far by this call,
-                                     c0 = the container when the lock was taken *)
+                                     r still to come; ghost: c0 = the container when the lock was taken *)
 | P_unlock (out : outc).          (* body over (or abandoned), still owns promiseLock *)
 
 (* slots: the (shared_)futures the client thread holds *)
 Record loc := Loc { prog : list op; at_ : pc; slots : list (option nat) }.
 (* plan: indices of the copies that throw; calls: copies made so far.
-   ghost: torn  = some fulfillAllPromises was ended by a throwing copy after it had satisfied a promise;
-          began = the critical sections in the order of their lock steps;
-          hist  = the critical sections in the order in which their bodies ended, with the outcome *)
+   ghost: began = the critical sections in the order of their lock steps;
+          hist  = the elementary bodies in the order in which they ended, with the outcome: one entry per
+                  method, except that fulfillAllPromises contributes one `SetValue` entry per promise it
+                  satisfied (that is what one iteration is), followed by its own entry (no further effect) *)
 Record glob := Glob { ct : cont; mtx : option nat; faulted : bool; plan : list Z; calls : Z;
-                      torn : bool; began : list (nat * op); hist : list (nat * op * outc) }.
+                      began : list (nat * op); hist : list (nat * op * outc) }.
 
 Definition O_MTX := 1.
 Definition locks (o : op) : bool := match o with FutReady _ | FutGet _ => false | _ => true end.
@@ -249,13 +253,17 @@ Definition log_out (t : nat) (o : op) (p : pc) (h : list (nat * op * outc)) : li
   | _ => h
   end.
 
-(* fulfillAllPromises: advance the iterator to the next promise to satisfy (parking at its copy),
-   or - after both loops - clear() the pending maps; a promise that cannot be set: std::future_error *)
-Definition ful_goto (v : Z) (done : nat) (c0 c : cont) (k : bool) (rest : amap) : cont * pc * bool :=
+(* one iteration of the loop over map k: set_value done (heap h1), move to the used map, erase *)
+Definition iter (unfixed : bool) (c : cont) (k : bool) (key : Z) (q : nat) (h1 : heap_t) : cont :=
+  Cont (if unfixed then pend c else setf (pend c) k (adel key (pend c k)))
+       (setf (used c) k (aput key q (used c k))) (drop_opt (afind key (used c k)) h1).
+
+(* fulfillAllPromises: advance the iterator to the next promise to satisfy (parking at its copy), or end
+   the method ([unfixed]: after clear()ing the pending maps); a promise that cannot be set: std::future_error *)
+Definition ful_goto (unfixed : bool) (v : Z) (c0 c : cont) (k : bool) (rest : amap) : cont * pc * bool :=
   let at_entry (k' : bool) (key : Z) (q : nat) (r : amap) :=
-      if is_unset (heap c) q then (c, P_ful v k' key q r done c0, false) else (c, P_unlock OFault, true) in
-  let fin := (Cont (fun _ => []) (fun k' => if k' then used c true else used c false) (heap c),
-              P_unlock (ORet 0), false) in
+      if is_unset (heap c) q then (c, P_ful v k' key q r c0, false) else (c, P_unlock OFault, true) in
+  let fin := (if unfixed then Cont (fun _ => []) (used c) (heap c) else c, P_unlock (ORet 0), false) in
   match rest with
   | (key, q) :: r => at_entry k key q r
   | [] => if k then fin else
@@ -266,18 +274,18 @@ Definition ful_goto (v : Z) (done : nat) (c0 c : cont) (k : bool) (rest : amap) 
   end.
 
 (* the part of a method that runs in its lock step: container, next pc, fault *)
-Definition enter (o : op) (c : cont) : cont * pc * bool :=
+Definition enter (unfixed : bool) (o : op) (c : cont) : cont * pc * bool :=
   match o with
   | SetValue false k key v =>
     match afind key (pend c k) with
     | Some q => if is_unset (heap c) q then (c, P_call o, false) else (c, P_unlock OFault, true)
     | None => (c, P_unlock (ORet 0), false)
     end
-  | FulfillAll v => ful_goto v 0 c c false (pend c false)
+  | FulfillAll v => ful_goto unfixed v c c false (pend c false)
   | _ => let '(c', rv, flt) := apply o c in (c', P_unlock (out_of rv flt), flt)
   end.
 
-Definition tstep (t c : nat) (g : glob) (l : loc) : option (glob * loc * list ev) :=
+Definition tstep_gen (unfixed : bool) (t c : nat) (g : glob) (l : loc) : option (glob * loc * list ev) :=
   match at_ l with
   | Idle =>
     match prog l with
@@ -297,44 +305,41 @@ Definition tstep (t c : nat) (g : glob) (l : loc) : option (glob * loc * list ev
     match mtx g with
     | Some _ => None
     | None =>
-      let '(c', p', flt) := enter o (ct g) in
+      let '(c', p', flt) := enter unfixed o (ct g) in
       let sl' := match o with
                  | GetFuture _ _ sl => upd (slots l) sl (Some (length (heap (ct g))))
                  | _ => slots l
                  end in
-      Some (Glob c' (Some t) (faulted g || flt) (plan g) (calls g) (torn g) (began g ++ [(t, o)])
+      Some (Glob c' (Some t) (faulted g || flt) (plan g) (calls g) (began g ++ [(t, o)])
                  (log_out t o p' (hist g)),
             Loc (prog l) p' sl', [E K_LOCK O_MTX 0])
     end
   | P_call o =>
     if throws g then
-      Some (Glob (ct g) (mtx g) (faulted g) (plan g) (calls g + 1) (torn g) (began g) (hist g ++ [(t, o, OExn)]),
+      Some (Glob (ct g) (mtx g) (faulted g) (plan g) (calls g + 1) (began g) (hist g ++ [(t, o, OExn)]),
             Loc (prog l) (P_unlock OExn) (slots l), [E K_CALL 0 (val_of o); E K_THROW 0 (calls g)])
     else
       let '(c', rv, flt) := apply o (ct g) in
       let p' := P_unlock (out_of rv flt) in
-      Some (Glob c' (mtx g) (faulted g || flt) (plan g) (calls g + 1) (torn g) (began g) (log_out t o p' (hist g)),
+      Some (Glob c' (mtx g) (faulted g || flt) (plan g) (calls g + 1) (began g) (log_out t o p' (hist g)),
             Loc (prog l) p' (slots l), [E K_CALL 0 (val_of o)])
-  | P_ful v k key q r done c0 =>
+  | P_ful v k key q r c0 =>
     if throws g then
-      Some (Glob (ct g) (mtx g) (faulted g) (plan g) (calls g + 1) (torn g || negb (Nat.eqb done 0)) (began g)
-                 (hist g ++ [(t, FulfillAll v, OExn)]),
+      Some (Glob (ct g) (mtx g) (faulted g) (plan g) (calls g + 1) (began g) (hist g ++ [(t, FulfillAll v, OExn)]),
             Loc (prog l) (P_unlock OExn) (slots l), [E K_CALL 0 v; E K_THROW 0 (calls g)])
     else
       match set_value q v (heap (ct g)) with
       | None =>
-        Some (Glob (ct g) (mtx g) true (plan g) (calls g + 1) (torn g) (began g) (hist g),
+        Some (Glob (ct g) (mtx g) true (plan g) (calls g + 1) (began g) (hist g),
               Loc (prog l) (P_unlock OFault) (slots l), [E K_CALL 0 v])
       | Some h1 =>
-        let cc := ct g in
-        let c1 := Cont (pend cc) (setf (used cc) k (aput key q (used cc k))) (drop_opt (afind key (used cc k)) h1) in
-        let '(c', p', flt) := ful_goto v (S done) c0 c1 k r in
-        Some (Glob c' (mtx g) (faulted g || flt) (plan g) (calls g + 1) (torn g) (began g)
-                   (log_out t (FulfillAll v) p' (hist g)),
+        let '(c', p', flt) := ful_goto unfixed v c0 (iter unfixed (ct g) k key q h1) k r in
+        Some (Glob c' (mtx g) (faulted g || flt) (plan g) (calls g + 1) (began g)
+                   (log_out t (FulfillAll v) p' (hist g ++ [(t, SetValue true k key v, ORet 0)])),
               Loc (prog l) p' (slots l), [E K_CALL 0 v])
       end
   | P_unlock out =>
-    Some (Glob (ct g) None (faulted g) (plan g) (calls g) (torn g) (began g) (hist g),
+    Some (Glob (ct g) None (faulted g) (plan g) (calls g) (began g) (hist g),
           Loc (prog l) Idle (slots l),
           E K_UNLOCK O_MTX 0 ::
           match out with
@@ -344,10 +349,12 @@ Definition tstep (t c : nat) (g : glob) (l : loc) : option (glob * loc * list ev
           end)
   end.
 
+Definition tstep := tstep_gen false.   (* the header as repaired; tstep_gen true: before b8719b7 *)
+
 Definition fin (l : loc) : bool := match at_ l, prog l with Idle, [] => true | _, _ => false end.
 
 Definition init (nslots : nat) (pl : list Z) (progs : list (list op)) : sys glob loc :=
-  Sys (Glob cont0 None false pl 0 false [] []) (map (fun p => Loc p Idle (repeat None nslots)) progs).
+  Sys (Glob cont0 None false pl 0 [] []) (map (fun p => Loc p Idle (repeat None nslots)) progs).
 
 (* ---------- entry point of the correspondence check ---------- *)
 Fixpoint decode_prog (p : list (list Z)) : list op :=
